@@ -70,12 +70,14 @@ type FuncContract struct {
 	Closures    map[int]*LoopSpec // closure n invariants
 	Asserts     []*AssertSpec
 	GhostUpd    []*GhostUpdate
+	Dispatch    map[string][]string // function-typed variable -> candidate named functions
 	Iter        *IterSpec
 	Inline      bool // callee body is inlined at call sites instead of using a contract
 	NoBody      bool // do not verify body even though not trusted (never set silently)
 	File        string
 	Line        int
 	PkgPath     string
+	FromPkg     string // package in whose contract/spec context the header was written (resolves short qualifiers)
 	Skip        []string // statements (by printed prefix) abstracted by havoc: listed as assumption
 	PureCallbacks []string // function-typed fields/params modelled as deterministic functions
 }
@@ -108,6 +110,7 @@ type Axiom struct {
 
 type PureIface struct {
 	Pkg, Name, File string
+	FromPkg         string
 }
 
 type GhostVar struct {
@@ -155,7 +158,7 @@ var clauseKeywords = map[string]bool{
 	"modifies": true, "loop": true, "closure": true, "canary": true, "assert": true, "assume": true, "ghost": true,
 	"spec": true, "axiom": true, "lemma": true, "regex": true, "property": true, "reveal": true,
 	"use": true, "decreases": true, "yields": true, "where": true, "distinct": true, "complete": true,
-	"mayfail": true, "begins": true, "callback": true, "inline": true, "table": true, "package": true, "skip": true, "ordered": true, "rec": true,
+	"mayfail": true, "begins": true, "callback": true, "inline": true, "table": true, "package": true, "skip": true, "ordered": true, "rec": true, "dispatch": true,
 }
 
 type rawLine struct {
@@ -336,7 +339,7 @@ func (c *Contracts) ParseText(path string, text string, pkgPath string) error {
 				if i := strings.LastIndex(name, "."); i >= 0 {
 					pkg, name = name[:i], name[i+1:]
 				}
-				c.PureIfaces = append(c.PureIfaces, PureIface{pkg, name, path})
+				c.PureIfaces = append(c.PureIfaces, PureIface{Pkg: pkg, Name: name, File: path, FromPkg: curPkg})
 				cur, curAx, curTable = nil, nil, nil
 				continue
 			}
@@ -360,6 +363,7 @@ func (c *Contracts) ParseText(path string, text string, pkgPath string) error {
 				}
 				text = strings.TrimSpace(text[len(w2):])
 			}
+			fc.FromPkg = curPkg
 			if err := parseFuncHeader(fc, text, curPkg); err != nil {
 				return fail(l, "%v", err)
 			}
@@ -404,6 +408,20 @@ func (c *Contracts) ParseText(path string, text string, pkgPath string) error {
 				return fail(l, "callback pure NAME expected inside a func contract")
 			}
 			cur.PureCallbacks = append(cur.PureCallbacks, f[1])
+		case "dispatch":
+			// dispatch VAR over f1, f2, ...: calls through the function-typed variable VAR are resolved
+			// case by case over the named functions (a last case covers "none of them")
+			if cur == nil {
+				return fail(l, "dispatch outside func")
+			}
+			f := strings.Fields(strings.ReplaceAll(rest, ",", " "))
+			if len(f) < 3 || f[1] != "over" {
+				return fail(l, "dispatch VAR over f1, f2, ... expected")
+			}
+			if cur.Dispatch == nil {
+				cur.Dispatch = map[string][]string{}
+			}
+			cur.Dispatch[f[0]] = append(cur.Dispatch[f[0]], f[2:]...)
 		case "skip":
 			if cur == nil {
 				return fail(l, "skip outside func")
